@@ -194,6 +194,30 @@ class Tokens:
     def lets(self) -> str:
         return "".join(f"let {name} : pystr := {C.c_str(text)} in " for text, name in self.strs.items())
 
+    # goes into the header of every generated case file of the plugins that use `wrap`
+    HEADER = "Definition tok_nth (n : N) (l : list (list N)) : list N := nth (N.to_nat n) l []."
+
+    def wrap(self, body: str) -> str:
+        """The bindings for the interned strings, then the body.  A string used only once is written in place.  Few
+        shared strings become nested `let`s; many become ONE list looked up by index (`tok_nth`, see HEADER): a `let`
+        per string makes the nesting as deep as the number of distinct strings, and Coq's cost grows quadratically
+        with that depth (measured: 1200 lets 42 s, the same strings in one table 4 s)."""
+        import re
+        from collections import Counter
+        uses = Counter(re.findall(r"\bs\d+\b", body))
+        by_name = {name: text for text, name in self.strs.items()}
+        inline = {n for n in by_name if uses.get(n, 0) <= 1}
+        shared = [n for n in by_name if n not in inline]
+        if len(shared) <= 80:
+            body = re.sub(r"\bs\d+\b", lambda m: C.c_str(by_name[m.group(0)]) if m.group(0) in inline else m.group(0), body)
+            lets = "".join(f"let {name} : pystr := {C.c_str(by_name[name])} in " for name in shared)
+            return lets + body
+        index = {n: i for i, n in enumerate(shared)}
+        body = re.sub(r"\bs\d+\b", lambda m: C.c_str(by_name[m.group(0)]) if m.group(0) in inline
+                      else f"(tok_nth {index[m.group(0)]}%N tok_tbl)", body)
+        table = "[" + "; ".join(C.c_str(by_name[n]) for n in shared) + "]"
+        return f"let tok_tbl : list (list N) := {table} in " + body
+
     def hval(self, v) -> str:
         if isinstance(v, str):
             return f"(HStr {self.s(v)})"
@@ -238,7 +262,7 @@ def to_coq(case, result) -> str:
                          for u, vt, locs in o["devs"]), "dev_obs")
         nxt = C.c_opt(o["next"], c_time, "Z")
         obs.append(f"{{| o_note := {note}; o_combined := {items_coq(o['combined'], tok)}; o_devs := {devs}; o_next := {nxt} |}}")
-    return (f"({tok.lets()}((@nil N, {ipv}, {C.c_list(ops, 'op')}) : input, {C.c_list(obs, 'obs')} : observation))")
+    return "(" + tok.wrap(f"((@nil N, {ipv}, {C.c_list(ops, 'op')}) : input, {C.c_list(obs, 'obs')} : observation)") + ")"
 
 
 # ---------------------------------------------------------------------- generators
